@@ -38,6 +38,10 @@ func runC12(r *an.Run) {
 	// the modes can only agree if each file is processed once
 	c15OnceInOrder(r)
 	relabel(r, "R3-each-file-once-in-fixed-order", "R5-each-file-processed-once")
+	// the file replaced in place is the file that was read: the atomic write renames onto the path it is
+	// given (not a resolved / rewritten one), so a second name for the same file cannot be written twice
+	c16AtomicReplace(r)
+	relabel(r, "R1-no-destructive-open", "R6-in-place-mode-replaces-the-file-that-was-read")
 }
 
 func c12NoMutationInDryRun(r *an.Run, m *runModel) {
